@@ -236,6 +236,8 @@ func (s *Server) installMock(ep *Endpoint, mock reflect.Value) error {
 				return outs
 			}
 			switch {
+			case o.RawErr != nil:
+				outs[len(outs)-1] = reflect.ValueOf(o.RawErr).Convert(outTypes[len(outTypes)-1])
 			case o.Err != nil:
 				outs[len(outs)-1] = reflect.ValueOf(o.Err.response()).Convert(outTypes[len(outTypes)-1])
 			case o.PlainError != "":
